@@ -95,6 +95,9 @@ func scenarioC19(x *runner.X) {
 	if dense {
 		n = 1
 	}
+	// hot: few slots, many transactions per slot, requests that include several accounts, so that
+	// the per-account workers of the index path meet in the same slot of the ordered buffer
+	hot := !dense && t.Bool(0.3)
 	first := uint64(t.Pick(1, 5, 77))
 	var ws []*builtWorld
 	for i := 0; i < n; i++ {
@@ -102,6 +105,9 @@ func scenarioC19(x *runner.X) {
 		p := world.Params{Epoch: e, Salt: 19, NumBlocks: t.Range(2, 6), MaxEntries: t.Range(1, 3), MaxTxPerEntry: t.Range(1, 3), NumAccounts: t.Pick(6, 8), MaxFrameBytes: t.Pick(200, 80, 1000), SkipProb: 0.5, MaxSkip: t.Pick(2, 6), VoteFrac: 0.35, FailedFrac: 0.3, V0Frac: 0.6, LookupFrac: 0.8}
 		if i == 0 && n == 2 {
 			p.FirstSlotOffset = world.SlotsPerEpoch - 40 // near the end of the epoch
+		}
+		if hot {
+			p.NumBlocks, p.MaxEntries, p.MaxTxPerEntry, p.NumAccounts = t.Range(1, 3), 3, 6, 6
 		}
 		if dense {
 			p.NumBlocks, p.MaxEntries, p.MaxTxPerEntry, p.NumAccounts = t.Range(30, 45), 4, 7, 6
@@ -218,6 +224,21 @@ func scenarioC19(x *runner.X) {
 		}
 		reqs = append(reqs, q)
 		desc += fmt.Sprintf("[%d..%d nofilter=%v vote=%v failed=%v inc=%d exc=%d req=%d] ", q.start, q.end, q.noFilter, q.vote, q.failed, len(q.include), len(q.exclude), len(q.required))
+	}
+	if hot {
+		for k := 0; k < 3; k++ {
+			q := txReq{vote: true, failed: true, include: pickAccs(t.Range(3, 4))}
+			q.start, q.end = pickRange()
+			if k == 0 {
+				q.start, q.end = allBlocks[0].Slot, allBlocks[len(allBlocks)-1].Slot
+				if q.end-q.start > 90 {
+					q.start = q.end - 90
+				}
+			}
+			reqs = append(reqs, q)
+			desc += fmt.Sprintf("[hot %d..%d inc=%d] ", q.start, q.end, len(q.include))
+		}
+		x.Probe("c19.hot_slot_requests")
 	}
 	if dense {
 		// the whole epoch, filtered by the most mentioned account
